@@ -465,8 +465,8 @@ def run(tier):
     if not quick:
         lpa4 = dict(kind="lpa", n=4, w=(1, 2), maxe=12, src=0, tgt=3, hsel=0, tiefree=False)
         impl += [
-            ("lpa-current-4-len7", "ds/LPAstar", _lpa_cfg("lpa-current-4-len7", False, False, maxlen=7, **lpa4), "ok", None),
-            ("lpa-current-4-e6", "ds/LPAstar", _lpa_cfg("lpa-current-4-e6", False, False, **dict(lpa4, maxe=6)), "ok", None),
+            ("lpa-current-4-e8", "ds/LPAstar", _lpa_cfg("lpa-current-4-e8", False, False, **dict(lpa4, maxe=8)), "ok", None),
+            ("lpa-current-4-len6", "ds/LPAstar", _lpa_cfg("lpa-current-4-len6", False, False, maxlen=6, **dict(lpa4, w=(1, 2, 3), hsel=1)), "ok", None),
             ("sssp-tiefree-3-ordered", "ds/DynamicSSSP", _sssp_cfg("sssp-tiefree-3-ordered", view="SViewOrdered", kind="sssp", n=3, w=(1, 2, 4), maxe=4), "ok", None),
             ("sssp-tiefree-4", "ds/DynamicSSSP", _sssp_cfg("sssp-tiefree-4", kind="sssp", n=4, w=(1, 2, 4), maxe=3), "ok", None),
             ("lpad-current-3-e6", "ds/LPAstar", _lpa_cfg("lpad-current-3-e6", False, False, **dict(lpad_small, maxe=6)), "ok", None),
